@@ -9,7 +9,7 @@ from ..gen import J, JI
 
 PROP = "C06"
 HOSTILE = ('scale', 'mean', 'special')
-MONITORS = ("WF", "DENS", "CACHE")
+MONITORS = ("WF", "DENS", "CACHE", "FORM")
 ANCHORS = [("pdf.py", "GaussianPDF.condition_on"), ("pdf.py", "GaussianPDF.condition_on_explicit"),
            ("conditional.py", "ConditionalGaussianPDF.get_conditional_mu"),
            ("conditional.py", "ConditionalGaussianPDF.condition_on_x")]
